@@ -488,7 +488,9 @@ pub open spec fn bareword_shape(s: Seq<char>) -> bool {
 }
 // what the printer decides to write without quotes
 pub open spec fn printed_bare(s: Seq<char>) -> bool {
-    s.len() > 0 && ascii_alpha(s[0]) && forall|i: int| 0 <= i < s.len() ==> (ascii_alpha(#[trigger] s[i]) || s[i] == '_')
+    s.len() > 0 && ascii_alpha(s[0]) && (forall|i: int| 0 <= i < s.len() ==> (ascii_alpha(#[trigger] s[i]) || s[i] == '_'))
+    // NULL has bareword shape but is the EMPTY token for the tokenizer: it must stay quoted
+    && s != "NULL"@
 }
 pub proof fn lemma_bareword_shape(s: Seq<char>)
     requires printed_bare(s)
